@@ -140,6 +140,16 @@ package profile
 //@   ensures [C12:fields] result.Negated == negated && result.Name == name && result.Level == level && result.ClassGenerator == targetClass && result.Message == parseMsg(messageExpression) && result.Variable != nil
 
 //@ func ParseExpression(name string, data *y.Yaml, level string, varGenerator *VarGenerator) (Rule, error)
-//@   requires data != nil && varGenerator != nil
+//@   requires data != nil && varGenerator != nil && deref(data).data != nil
 //@   ensures [C12:named-and-levelled] result1 == nil ==> (is(result0, profile.TopLevelExpression) && result0.(profile.TopLevelExpression).Name == name && result0.(profile.TopLevelExpression).Level == level && !result0.(profile.TopLevelExpression).Negated)
 //@   ensures [C12:message-as-written-or-default] let n = asref(*yaml.Node, yamlValueFor(ref(old(deref(data).data)), box(string, "message"))) :: (result1 == nil ==> result0.(profile.TopLevelExpression).Message == parseMsg(ite(n != nil && old(deref(n).Kind) == 8 && old(deref(n).Tag) == "!!str", old(deref(n).Value), "Validation error")))
+
+// ---- level lists (C15 / C03) ---------------------------------------------------------------------------------------------
+
+//@ func parseValidationLevel(level string, profile *y.Yaml, validations *y.Yaml) ([]Rule, error)
+//@   requires profile != nil && validations != nil && deref(profile).data != nil && deref(validations).data != nil
+//@   ensures [C15,C03:one-rule-per-defined-listed-name-in-list-order] let N = asref(*yaml.Node, yamlValueFor(ref(old(deref(profile).data)), box(string, level))) :: ((result1 == nil && N != nil && old(deref(N).Kind) == 2) ==> ruleNames(result0) == listedDefined(old(deref(N).Content), old(heap(*yaml.Node)), ref(old(deref(validations).data))))
+//@   ensures [C03:only-rules-of-that-level] result1 == nil ==> (forall k int :: 0 <= k && k < len(result0) ==> (is(result0[k], profile.TopLevelExpression) && result0[k].(profile.TopLevelExpression).Level == level))
+//@   loop 1 /* for i := 0; i < size; i++ */
+//@     invariant [C15] i >= 0 && i <= size && (forall k int :: 0 <= k && k < len(rules) ==> (is(rules[k], profile.TopLevelExpression) && rules[k].(profile.TopLevelExpression).Level == level))
+//@     invariant [C15] let N = asref(*yaml.Node, yamlValueFor(ref(old(deref(profile).data)), box(string, level))) :: ruleNames(rules) == listedDefined(take(old(deref(N).Content), i), old(heap(*yaml.Node)), ref(old(deref(validations).data)))
